@@ -239,7 +239,29 @@ func VerifH_C15_Capture() {
 	// token stream: balanced, well nested, finite, identical to the input
 	tr := val.TokenReader()
 	depth := 0
+	// a second, complete traversal of the same value starts while the first
+	// is under way (never, after its first token, or in its middle): the
+	// streams of a value are independent of each other
+	second := -1
+	switch vrt.Choose("second-traversal", 3) {
+	case 1:
+		second = 1
+	case 2:
+		second = len(want)/2 + 1
+	}
 	for i := 0; i < len(want); i++ {
+		if i == second {
+			tr2 := val.TokenReader()
+			for j := 0; j < len(want); j++ {
+				tok2, err2 := tr2.Token()
+				vrt.Assert(err2 == nil && tok2 != nil && tokenEq(tok2, want[j]), "a second traversal of the value yields the captured tokens")
+				if err2 != nil || tok2 == nil {
+					return
+				}
+			}
+			tok2, err2 := tr2.Token()
+			vrt.Assert(tok2 == nil && err2 == io.EOF, "a second traversal ends with io.EOF")
+		}
 		tok, err := tr.Token()
 		vrt.Assert(err == nil && tok != nil, "token stream must not end early")
 		if err != nil || tok == nil {
